@@ -23,7 +23,9 @@ RULE = ('for each of arvi/evi/gci/nbr/nbr2/ndvi/ndmi/savi/sipi/ebbi and true_col
         'and a swapped-band call on the SAME band objects (in-place writes show there); groups of 2-3 lazy Dask results of one '
         'index (same band objects with other parameters / band order, and other bands) evaluated in ONE dask.compute, each '
         'compared with the oracle, its NumPy-backed result and the model; band-swap and power-of-two-scaling '
-        'metamorphic pairs on the implementation. A case is non-trivial when it has >= 1 cell with all bands finite; '
+        'metamorphic pairs on the implementation; true_color red bands in int32/int64/uint32/float64 with cells at nodata, nextafter(nodata) '
+        'in the band\'s own dtype and values float32 cannot represent (nodata 0, negative, 2^24, fractional); every ratio index on small '
+        'integers times 2^k, k = -20..-120 and +20..+120, against its unscaled twin. A case is non-trivial when it has >= 1 cell with all bands finite; '
         'distinct by JSON encoding.')
 TRUSTED = [
     'float instance of the model: binary32 = Coq SpecFloat operations at (24,128), binary64 = Coq primitive floats '
@@ -263,6 +265,10 @@ def oracle_index(ctx, case, out):
                     return False
             elif exp[0] == 'val':
                 _, q, tol = exp
+                if math.isnan(o) and all(abs(v) <= 2 ** 60 for v in vals) and (fn in ND or fn in ('sipi', 'gci') or moderate(vals)):
+                    ctx.violation('oracle', '%s: bands %r gave NaN although the denominator is not zero (formula value %.9g)'
+                                  % (fn, raw, float(q)), rep)
+                    return False
                 if math.isnan(o) or math.isinf(o):
                     if moderate(vals):
                         ctx.violation('oracle', '%s: bands %r gave %r, formula value %s' % (fn, raw, o, float(q)), rep)
@@ -992,6 +998,78 @@ def fixed_cases():
     return out
 
 
+def gen_alpha_boundary(rng, quick=True):
+    """true_color red bands in their OWN wide dtype around nodata: cells at nodata, at nextafter(nodata) in the band's dtype,
+    and values float32 cannot represent — a threshold evaluated on a narrowed (float32) copy of the band shows here"""
+    out = []
+    specs = []
+    for dt in ['int32', 'int64', 'float64', 'uint32']:
+        if dt == 'float64':
+            nds = [0.1, 0, -0.5, 2.5, 2 ** 24, 1e-50 if False else 0.0, -3, 16777217.0, 1e9 + 0.5]
+        elif dt == 'uint32':
+            nds = [2 ** 24, 0, 2 ** 31 + 1, 2.5]
+        else:
+            nds = [2 ** 24, 0, -1, -(2 ** 24) - 1, 2 ** 30 + 1, 2.5, -0.5]
+        for nd in nds:
+            specs.append((dt, nd))
+    if quick:
+        rng.shuffle(specs)
+        specs = specs[:14]
+    for dt, nd in specs:
+        if dt == 'float64':
+            f = float(nd)
+            red = [f, float(np.nextafter(f, np.inf)), float(np.nextafter(f, -np.inf)), f + 1e-9, f - 1e-9,
+                   1e-50, -1e-50, f + 1.0, f - 1.0, 0.1 + 1e-9, 16777217.0, float('nan')]
+        else:
+            lo, hi = dtype_limits(dt)
+            base = int(math.floor(nd))
+            red = [base, base + 1, base - 1, base + 2, 2 ** 24 + 1, 2 ** 24 - 1, 2 ** 24 + 3, 0, 1, 2 ** 30 + 1]
+            if dt == 'int64':
+                red += [2 ** 40 + 1, 2 ** 53 - 1, -(2 ** 40) - 1]
+            if lo < 0:
+                red += [-1, -(2 ** 24) - 1, -(2 ** 24) - 2]
+            red = [max(lo, min(hi, v)) for v in red]
+        rng.shuffle(red)
+        cols = 4
+        red = red[:cols * 3] + [red[0]] * (-len(red[:cols * 3]) % cols)
+        rows = len(red) // cols
+        r = [red[i * cols:(i + 1) * cols] for i in range(rows)]
+        other = [[gen_value(rng, dt, 'small') for _ in range(cols)] for _ in range(rows)]
+        out.append(dict(fn='true_color', dtypes=[dt] * 3, kind='alpha-boundary', bands=[r, other, [list(x) for x in other]],
+                        params=dict(nodata=nd, c=rng.choice([10.0, 5.0]), th=rng.choice([0.125, 0.5])), dims=['y', 'x']))
+    return out
+
+
+SCALE_INV = ND + ['sipi', 'arvi', 'gci', 'savi', 'evi']      # invariant under a common 2^k scaling (savi / evi with soil_factor 0)
+
+
+def gen_magnitude_cases(rng, quick=True):
+    """every ratio index on very small / very large band magnitudes: small integers times 2^k, k = -20 .. -140 and +20 .. +120.
+    NaN may appear ONLY where the denominator is exactly zero, and (for the scale-invariant indices) the result must be the
+    bit-identical result of the unscaled bands"""
+    out = []
+    ks = [-20, -23, -24, -30, -40, -60, -90, -120, 20, 60, 100, 120]
+    for fn in ALL_FN:
+        nb = len(ARGS[fn])
+        for k in (rng.sample(ks, 5) if quick else ks):
+            dt = rng.choice(['float32', 'float64', 'float32'])
+            rows, cols = 2, 4
+            base = [[[float(rng.randint(0, 40)) for _ in range(cols)] for _ in range(rows)] for _ in range(nb)]
+            base[0][0][0], base[1][0][0] = 3.0, 1.0                       # a plain well-defined cell
+            base[0][0][1], base[1][0][1] = 1.0, 0.0                       # a + b = 1 * 2^k : tiny but NOT zero
+            base[1][0][2] = -base[0][0][2] if fn in ND else base[1][0][2]  # an exactly zero denominator stays NaN
+            params = {}
+            if fn == 'savi':
+                params = dict(soil_factor=0.0)
+            elif fn == 'evi':
+                params = dict(c1=rng.choice([6.0, 2.0, 0.0]), c2=rng.choice([7.5, 1.0, 0.0]), soil_factor=0.0, gain=rng.choice([2.5, 1.0]))
+            sc = 2.0 ** k
+            bands = [[[v * sc for v in r] for r in b] for b in base]
+            out.append((dict(fn=fn, dtypes=[dt] * nb, kind='magnitude', bands=base, params=params),
+                        dict(fn=fn, dtypes=[dt] * nb, kind='magnitude', bands=bands, params=params, scale_pow=k)))
+    return out
+
+
 def run(ctx, model=True):
     ms = _impl()
     rng = ctx.rng
@@ -1086,6 +1164,30 @@ def run(ctx, model=True):
         ctx.case(case, nontrivial=nontrivial(case))
         ctx.count('%strue_color/%s/%s' % ('dask:' if case.get('chunks') is not None else '', case['dtypes'][0], case['kind']))
         run_true_color(ctx, ms, case, pending)
+    # ---- appended streams (rng draws of the streams above are unchanged) ----
+    # true_color alpha at the nodata boundary in the red band's own (wide) dtype
+    for case in gen_alpha_boundary(rng, ctx.quick()):
+        ctx.case(case, nontrivial=True)
+        ctx.count('true_color/%s/alpha-boundary' % case['dtypes'][0])
+        run_true_color(ctx, ms, case, pending)
+    # ratio indices at very small / very large magnitudes, with the unscaled twin
+    for base, scaled in gen_magnitude_cases(rng, ctx.quick()):
+        for c in (base, scaled):
+            c['style'] = 'kw'
+            c['exact'] = is_exact_class(c['bands'], c['params'])
+        ctx.case(scaled, nontrivial=True)
+        ctx.count('%s/%s/magnitude 2^%d' % (scaled['fn'], scaled['dtypes'][0], scaled['scale_pow']))
+        o1 = run_index_case(ctx, ms, base, pending)
+        o2 = run_index_case(ctx, ms, scaled, pending)
+        if o1 is not None and o2 is not None and scaled['fn'] in SCALE_INV:
+            done = False
+            for y, (r1, r2) in enumerate(zip(o1, o2)):
+                for x, (a, b) in enumerate(zip(r1, r2)):
+                    if not same_f(a, b) and not done:
+                        done = True
+                        ctx.violation('oracle', '%s: scaling every band by 2^%d changed %r into %r (bands %r)' % (
+                            scaled['fn'], scaled['scale_pow'], a, b, [bb[y][x] for bb in base['bands']]),
+                            dict(scaled, cell=[y, x], got=b, original=a))
     if model:
         compare_model(ctx, pending)
     ctx.exhaustive = False
